@@ -706,6 +706,12 @@ def gen_pair(rng, n, kinds=('g', 't', 's', 'b', 'o')):
                            (f'Q:{hx("a")}:{hx("1")},U:{hx("zzz")}', f'Q:{hx("a")}:{hx("1")},Q:{hx("b")}:{hx("2")},U:{hx("aaa")}'),
                            (f'D:{hx("arch")}:-', '-'), (f'D:{hx("a")}:{hx("1")},D:{hx("b")}:-', f'D:{hx("a")}:{hx("1")}')]:
             yield f'K B {k} {ty} {hx("n")} {ops1} ~ B {k} {ty} {hx("n")} {ops2}'
+    # a qualifier whose value is a literal of a changed source line (a default the code may now treat specially) against its absence
+    for u in (EXTRA['strs'] + ['https://registry.npmjs.org', 'https://crates.io/', 'jar', 'https://pypi.org', 'https://repo.maven.apache.org/maven2'])[:16]:
+        for key in ['repository_url', 'type', 'download_url']:
+            for i, tyn in enumerate(SEVEN):
+                yield f'K B t {i} {hx("n")} S:{hx("g")},Q:{hx(key)}:{hx(u)} ~ B t {i} {hx("n")} S:{hx("g")}'
+                yield f'K B g {hx(tyn)} {hx("n")} Q:{hx(key)}:{hx(u)} ~ B g {hx(tyn)} {hx("n")} -'
     # values that are "the same" under some other notion of equality (numbers, case, white space, separators)
     for x, y in [('1.01', '1.1'), ('2024.07.04', '2024.7.4'), ('24.04', '24.4'), ('2', '10'), ('10', '1a'), ('1a', '2'), ('+1', '1'), ('1.0', '1.00'), ('1.10.0', '1.9.0'),
                  ('A', 'a'), ('a ', 'a'), ('a-b', 'a_b'), ('a.b', 'a-b'), ('v1', '1'), ('1.0', '1.0.0'), ('é', 'e\u0301')]:
